@@ -124,7 +124,12 @@ fn create_tx(hist: &mut Hist, coin: &str, keys: &[Vec<u8>], n_out: usize, rng: &
     }
     let outputs = (0..n_out)
         .map(|_| OutDesc {
-            value: if rng.chance(1, 8) { 0 } else { rng.range(1, 5_000_000_000) },
+            // a small palette half of the time: equal values on one address, zero values
+            value: match rng.below(16) {
+                0 | 1 => 0,
+                2..=8 => *rng.pick(&[1u64, 100, 5_000_000_000, 2_500_000_000]),
+                _ => rng.range(1, 5_000_000_000),
+            },
             script: Bytes(out_script(coin, keys, rng, addressless)),
         })
         .collect();
